@@ -8,7 +8,7 @@ SomeAdmitted == \E c \in CaseSet : Admit(c)
 SomeEach == \A st \in {400, 401, 403, 500} : \E c \in CaseSet : Expected(c).status = st
 
 SetSeq(S) == SetToSeq(S)
-CaseJson(c) == [hdr |-> c.hdr, ver |-> c.ver, req |-> SetSeq(c.req), granted |-> SetSeq(c.granted), exp |-> c.exp,
+CaseJson(c) == [hdr |-> c.hdr, ver |-> c.ver, req |-> SetSeq(c.req), granted |-> SetSeq(c.granted), dup |-> c.dup, exp |-> c.exp,
                 skew |-> c.skew, allow |-> c.allow, url |-> c.url, opts |-> c.opts]
 Export == ndJsonSerialize("cases.ndjson", SetSeq({CaseJson(c) : c \in CaseSet}))
 
